@@ -112,7 +112,16 @@ def check(run):
             for pc in cwa.param_counts:
                 argmap0 = {prm["n"]: a for prm, a in zip(cf["params"], ev.call.get("args", []))}
                 a = argmap0.get(pc["param"])
+                # the count is handed over by non-const reference; the callee does not write it (checked when the
+                # callee was analysed), so the caller's definition of the variable is still the value in force
+                ap = path(a) if a is not None else None
+                lifted = None
+                if ap and len(ap) == 1 and ap[0] in env.byref_only and ap[0] in env.assigned:
+                    env.assigned.discard(ap[0])
+                    lifted = ap[0]
                 st = ir.sum_terms(a, env) if a is not None else None
+                if lifted:
+                    env.assigned.add(lifted)
                 ckey = "%s->%s:%s(%s)" % (short(f["qn"]), short(cal["qn"]), pc["kind"].lower(), pc["param"])
                 if st is None:
                     run.ob("R02.1", ckey, None, f, ev.line, "count argument %s is not a sum of presence indicators" % show(a))
